@@ -189,12 +189,23 @@ def configured_keys(scn):
     arrays = pl.table_arrays(scn["table"])
     exp = rp.annotate_expected(scn, arrays, cfg)
     runnable, all_keys = set(), set()
+    window_model = {}   # key -> {row: flag the covering context produces (direct call on its window rows)}
+    cover = {}
     for e in exp:
         k = (e["entry"]["sid"], e["entry"]["module"], e["entry"]["test"])
         all_keys.add(k)
         if not e["fails"]:
             runnable.add(k)
-    return runnable, all_keys
+        for row in np.flatnonzero(e["rows"]):
+            cover.setdefault(k, {}).setdefault(int(row), 0)
+            cover[k][int(row)] += 1
+        if not e["fails"]:
+            fl = pl.flags_json(e["direct"])
+            for j, row in enumerate(np.flatnonzero(e["rows"])):
+                window_model.setdefault(k, {})[int(row)] = fl[j] if j < len(fl) else None
+    for k in window_model:
+        window_model[k] = {r: f for r, f in window_model[k].items() if cover[k][r] == 1}
+    return runnable, all_keys, window_model
 
 
 def model_of(msgs, n):
@@ -254,9 +265,10 @@ def execute(scn):
         return {"violations": [], "stats": stats, "events": 0, "event_digest": "", "schedule_digest": "", "end_state": "src-failed:" + exc_signature(e), "nontrivial": False}
     model = model_of(msgs, n)
     before = [msg_digest(m) for m in msgs]
+    window_model = None
     if scn["source"] == "stream" and not scn["table"].get("unsorted"):
         # what is collected is what was configured: one result per configured (stream, module, test) that can run
-        runnable, all_keys = configured_keys(scn)
+        runnable, all_keys, window_model = configured_keys(scn)
         missing = sorted(runnable - set(model))
         extra = sorted(set(model) - all_keys)
         if missing:
@@ -314,6 +326,11 @@ def execute(scn):
                     continue
                 fj = pl.flags_json(arr)
                 canon_out[str(key)] = fj
+                if window_model is not None and key in window_model:
+                    # end to end: the row a context's window covers carries the flag that context produces for it
+                    bad = [r for r, f in sorted(window_model[key].items()) if r < n and fj[r] != f]
+                    if bad:
+                        V.append(violation(PROP, "c", f"collect_{how}", "row-carries-another-contexts-flag", f"{key} rows {bad[:5]}: {[fj[r] for r in bad[:5]]} expected {[window_model[key][r] for r in bad[:5]]}"))
                 for row in range(n):
                     if row in d["dup"]:
                         continue
